@@ -8,6 +8,7 @@ mod mock;
 mod props;
 mod sclient;
 mod sserver;
+mod threads;
 
 use common::*;
 use std::time::Instant;
